@@ -24,6 +24,7 @@ import (
 //   B <ro|rw> <nkeys> keys.. <nops> bops..                       raw bbolt cursor, bops = F L N P S<hex>
 //   R .. / S ..                                                  re-opened cursors and scans: c14_reuse.go
 //   I ..                                                         scanners layered over cursors (IterateIds ..): c14_scan.go
+//   C / Q / I line followed by " @ m0 .. mn"                     the same case under an observation protocol: c14_proto.go
 // Observation line: one token per observation point (after the constructor and after every op):
 //   I (invalid) | V<hex> (valid, Current) | P (panic; everything after is P too)
 // for B lines: the key returned by each op, I for nil.
